@@ -212,14 +212,14 @@ theorem lookupEntry_cases (cfg : Cfg) (now : Int) (ign : Bool) (e0 : Entry) :
     (lookupDeadline ign e0 > now ∧
       ((∃ ttl, (packedApprox e now).1 = some ttl ∧
           lookupEntry cfg now ign e0 =
-            (some (packedApprox e now).2, .hit (freshServed e ttl (e.nAns > 0 || e.ns == 1)))) ∨
+            (some (packedApprox e now).2, .hit (freshServed e ttl (packedVisible e)))) ∨
        ((packedApprox e now).1 = none ∧
           lookupEntry cfg now ign e0 =
             (some (packedApprox e now).2, .hit (freshServed e (ttlFromDeadline e.deadline now) (e.nAns > 0)))))) ∨
     (lookupDeadline ign e0 ≤ now ∧ cfg.optimistic = true ∧ ∃ ttl, staleResp e now cfg.staleTtl = some ttl ∧
         lookupEntry cfg now ign e0 =
           (some { e with refreshing := true },
-            .hit ⟨e.id, e.src, e.ans, e.nAns, ttl, e.nAns > 0 || e.ns == 1, true, !e.refreshing⟩)) ∨
+            .hit ⟨e.id, e.src, e.ans, e.nAns, ttl, packedVisible e, true, !e.refreshing⟩)) ∨
     (lookupDeadline ign e0 ≤ now ∧ (cfg.optimistic = false ∨ staleResp e now cfg.staleTtl = none) ∧
         lookupEntry cfg now ign e0 = (none, .miss)) := by
   intro e
@@ -773,13 +773,13 @@ theorem step_IdInv (latched : List Nat) (w : World) (op : Op) (h : IdInv latched
         cases hr : e0.refreshing with
         | true =>
           have : refreshId (LRes.hit ⟨(touch e0 now).id, (touch e0 now).src, (touch e0 now).ans, (touch e0 now).nAns,
-              ttl, decide ((touch e0 now).nAns > 0) || (touch e0 now).ns == 1, true, !(touch e0 now).refreshing⟩) = none := by
+              ttl, packedVisible (touch e0 now), true, !(touch e0 now).refreshing⟩) = none := by
             simp [refreshId, touch, hr]
           simp only [this, Option.toList, List.append_nil]
           exact h.update hm rfl (Or.inl ⟨rfl, fun hx => by cases hx⟩)
         | false =>
           have : refreshId (LRes.hit ⟨(touch e0 now).id, (touch e0 now).src, (touch e0 now).ans, (touch e0 now).nAns,
-              ttl, decide ((touch e0 now).nAns > 0) || (touch e0 now).ns == 1, true, !(touch e0 now).refreshing⟩) = some e0.id := by
+              ttl, packedVisible (touch e0 now), true, !(touch e0 now).refreshing⟩) = some e0.id := by
             simp [refreshId, touch, hr]
           simp only [this, Option.toList]
           exact h.update hm rfl (Or.inr (Or.inl ⟨rfl, hr, rfl⟩))
